@@ -4,7 +4,7 @@ import treecommon
 
 
 def run(tier, seed):
-    return treecommon.run_tree_property("C05", tier, seed, "Properties/C05.v")
+    return treecommon.run_tree_property("C05", tier, seed, "Properties/C05.v", hooks_oracle=True)
 
 
 def replay(path):
